@@ -7,4 +7,7 @@ class Spec(runner.Spec):
     prop = "C01"
     streams = [uper_streams.RoundTrip()]
     assumptions = ASSUMPTIONS
+    # Props/Scope.lean: the faithful model of the Scope state machine (Uper/Scope.lean) refines the
+    # compositional mirror; the driver answers every request with both and reports `scope-mismatch`
+    extra_prop_files = ["Scope"]
     trusted_base = TRUSTED
